@@ -39,7 +39,7 @@ define_ops! {
 }
 
 dispatch_widths!(dispatch, call, Op;
-    0, 1, 2, 3, 4, 5, 6, 7, 8, 9, 10, 12, 16, 32, 63, 64, 65, 127, 128, 129, 191, 192, 193, 255, 256, 257, 319, 320, 321, 383, 384, 385, 447, 448, 449, 511, 512, 513, 575, 576, 577, 639, 640, 641, 703, 704, 705, 767, 768, 769, 831, 832, 833, 895, 896, 897, 959, 960, 961, 1023, 1024);
+    0, 1, 2, 3, 4, 5, 6, 7, 8, 9, 10, 12, 16, 32, 63, 64, 65, 96, 127, 128, 129, 191, 192, 193, 255, 256, 257, 319, 320, 321, 383, 384, 385, 447, 448, 449, 511, 512, 513, 575, 576, 577, 639, 640, 641, 703, 704, 705, 767, 768, 769, 831, 832, 833, 895, 896, 897, 959, 960, 961, 1023, 1024);
 
 mod k {
     //! width-independent kernels
@@ -582,7 +582,7 @@ fn c12(r: &Runner) {
     }
     // quotient-sequence universe
     let qw: Vec<(usize, u32)> = if r.is_thorough() {
-        vec![(64, 3), (65, 3), (127, 3), (128, 3), (129, 3), (192, 2), (193, 2), (256, 2), (257, 2), (320, 2), (512, 1)]
+        vec![(64, 3), (65, 3), (96, 3), (127, 2), (128, 2), (129, 2), (191, 2), (192, 2), (193, 2), (256, 2), (257, 2), (320, 2), (384, 1), (512, 1)]
     } else {
         vec![(64, 2), (65, 2), (127, 2), (128, 2), (129, 2), (192, 1), (256, 1), (257, 1), (320, 1)]
     };
@@ -945,7 +945,8 @@ fn c14(r: &Runner) {
         for d0 in [0u64, 1, u64::MAX, d1, 1 << 63, u64::MAX - 1, d1.wrapping_mul(0x9E37_79B9_7F4A_7C15)] {
             let d = (d1 as u128) << 64 | d0 as u128;
             let bd = BigUint::from(d);
-            for &q in words.iter().step_by(if r.is_thorough() { 1 } else { 3 }).chain(gq3.iter()) {
+            // quotients 2^64-1, 2^64-2 drive the n2 == d1 special case of the reference kernel
+            for &q in words.iter().step_by(if r.is_thorough() { 1 } else { 3 }).chain(gq3.iter()).chain([u64::MAX, u64::MAX - 1, u64::MAX - 2].iter()) {
                 for rr in [0u128, 1, d - 1, d >> 1, (d0 as u128) << 1, d - 2] {
                     if rr >= d {
                         continue;
@@ -959,7 +960,7 @@ fn c14(r: &Runner) {
                     l.states(1);
                     let args = [V::U(nl), V::U(vec![d0, d1])];
                     k::exec(l, 192, K::div_3x2, &args);
-                    if q & 1 == 0 {
+                    if q & 1 == 0 || q > u64::MAX - 3 {
                         k::exec(l, 192, K::div_3x2_ref, &args);
                     }
                 }
